@@ -265,11 +265,16 @@ type c18Workload struct {
 	// does not wait for the broker either: the operations start as soon as the last client reports SUBSCRIBED
 	SubDelay int    `json:"subscribe_delay_us,omitempty"`
 	IDSeed   uint64 `json:"id_seed"`
+	// SideOps > 0: every client also holds a second datatype (a counter under another key). Before the workload
+	// client 0 increases it SideOps times, after the workload the last client increases it once more: the logs of
+	// the two datatypes have different lengths, and each is numbered from 1
+	SideOps int `json:"side_counter_ops,omitempty"`
 }
 
 type rtClient struct {
 	cl        orda.Client
 	dt        iface.Datatype
+	side      iface.Datatype // second datatype of the client (nil unless the workload has SideOps)
 	mu        sync.Mutex
 	subs      int
 	errs      []string
@@ -338,7 +343,11 @@ func openRealtime(cl orda.Client, kind sim.Kind, key string, create bool, h *ord
 
 // c18Run executes a realtime workload; quiescent=false means the budget ran out (inconclusive).
 func c18Run(wl c18Workload) (quiescent bool, calls map[string]int, err error) {
-	w, e := newL1World(wl.IDSeed, []sim.Kind{wl.Kind})
+	kinds := []sim.Kind{wl.Kind}
+	if wl.SideOps > 0 {
+		kinds = append(kinds, sim.Counter)
+	}
+	w, e := newL1World(wl.IDSeed, kinds)
 	if e != nil {
 		return false, nil, fmt.Errorf("HARNESS-ERROR: %v", e)
 	}
@@ -399,6 +408,14 @@ func c18Run(wl c18Workload) (quiescent bool, calls map[string]int, err error) {
 		if wl.SubDelay == 0 {
 			waitUntil(2*time.Second, func() bool { return w.env.MQTT.Subscribers(w.col+"/"+k.Name) >= i+1 })
 		}
+		if wl.SideOps > 0 {
+			sk := w.keys[1]
+			r.side = openRealtime(cl, sim.Counter, sk.Name, i == 0, r.handlers())
+			if !waitUntil(5*time.Second, func() bool { return r.side.GetState() == model.StateOfDatatype_SUBSCRIBED }) {
+				return false, calls, fmt.Errorf("realtime client %d: its second datatype never became subscribed by itself (errors: %v)", i, r.errs)
+			}
+			waitUntil(2*time.Second, func() bool { return w.env.MQTT.Subscribers(w.col+"/"+sk.Name) >= i+1 })
+		}
 	}
 	// stuck: nothing is active any more (no call in flight, no notification queued, no background work, no
 	// goroutine of the client inside or about to enter a sync) for 3 s, but a client still holds an
@@ -415,7 +432,7 @@ func c18Run(wl c18Workload) (quiescent bool, calls map[string]int, err error) {
 				stackContains("syncPushPullPacks") || stackContains("DeliverTransaction.func")
 			unpushed := -1
 			for i, r := range cls {
-				if r.dt.NeedPush() {
+				if r.dt.NeedPush() || (r.side != nil && r.side.NeedPush()) {
 					unpushed = i
 				}
 			}
@@ -465,6 +482,12 @@ func c18Run(wl c18Workload) (quiescent bool, calls map[string]int, err error) {
 			return true, calls, stuckErr()
 		}
 	}
+	for i := 0; i < wl.SideOps; i++ {
+		if res := sim.Exec(sim.Counter, cls[0].side, sim.Call{M: "Increase"}); res.Panic != nil || res.Err != nil {
+			return false, calls, fmt.Errorf("HARNESS-ERROR: increase of the second datatype: %v %v", res.Err, res.Panic)
+		}
+		time.Sleep(200 * time.Microsecond)
+	}
 	for i, op := range wl.Ops {
 		if op.C < 0 {
 			// a push through the REST patch endpoint: announced like any other push, the realtime clients have
@@ -492,11 +515,26 @@ func c18Run(wl c18Workload) (quiescent bool, calls map[string]int, err error) {
 			time.Sleep(time.Duration(op.Sleep) * time.Microsecond)
 		}
 	}
+	if wl.SideOps > 0 {
+		if !quiesce() {
+			return false, calls, nil
+		}
+		if res := sim.Exec(sim.Counter, cls[len(cls)-1].side, sim.Call{M: "Increase"}); res.Panic != nil || res.Err != nil {
+			return false, calls, fmt.Errorf("HARNESS-ERROR: increase of the second datatype: %v %v", res.Err, res.Panic)
+		}
+	}
 	if !quiesce() {
 		return false, calls, nil
 	}
 	if stuck >= 0 {
 		return true, calls, stuckErr()
+	}
+	if wl.SideOps > 0 {
+		for i, r := range cls {
+			if got, want := sim.Canon(r.side.(orda.Datatype).ToJSON()), sim.Canon(map[string]interface{}{"Counter": float64(wl.SideOps + 1)}); got != want {
+				return true, calls, fmt.Errorf("the system is quiescent but the second datatype of realtime client %d (a counter increased %d times by client 0 and once by client %d) shows %s", i, wl.SideOps, len(cls)-1, got)
+			}
+		}
 	}
 	// quiescent => converged
 	log, _ := w.storedLogByKey(k.Name)
@@ -541,6 +579,8 @@ func testC18Realtime(t *testing.T, kind sim.Kind) {
 		wl := c18Workload{Kind: kind, Clients: rapid.IntRange(2, 4).Draw(rt, "clients"), FwdMax: rapid.SampledFrom([]int{0, 200, 2000}).Draw(rt, "fwd"),
 			RPCMax: rapid.SampledFrom([]int{0, 0, 1000, 10000}).Draw(rt, "rpcdelay"),
 			IDSeed: rapid.Uint64Range(1, 1<<40).Draw(rt, "idseed")}
+		// a third of the workloads: every client holds a second datatype whose log has another length
+		wl.SideOps = rapid.SampledFrom([]int{0, 0, 2, 12}).Draw(rt, "side_ops")
 		n := rapid.IntRange(1, 25).Draw(rt, "ops")
 		issuers := map[int]bool{}
 		patches, txs := 0, 0
@@ -597,6 +637,9 @@ func testC18Realtime(t *testing.T, kind sim.Kind) {
 		}
 		if txs > 0 {
 			rl = append(rl, "user-transactions(open-for-a-while,some-fail)")
+		}
+		if wl.SideOps > 0 {
+			rl = append(rl, "clients-hold-two-datatypes")
 		}
 		col.Case(len(issuers) >= 2, string(b), rl, func() interface{} { return wl })
 	})
